@@ -56,7 +56,15 @@ var c10Exprs = []string{
 }
 
 var c10Tags = []string{"<b>", "</b>", "<br/>", "<a href=\"u\">", "<a class=\"k\">", "</a>", "<i>", "<img src=\"s\"/>", "<a href=\"u\">", "<span>", "</span>", "<a_1>"}
-var c10Words = []string{"Hello ", "you have ", " new ", "items", ", ", "!", " and ", "é ", "{sp}", "x_1 "}
+var c10Words = []string{"Hello ", "you have ", " new ", "items", ", ", "!", " and ", "é ", "{sp}", "x_1 ", "{lb}0{rb} ", "{lb}NAME{rb}", "{lb}", "{rb} ", "a{nil}b"}
+
+// c10TextPairs are raw-text fragments whose texts differ (after Soy's own substitution of {lb},
+// {rb}, {sp}, {nil}): a message ending in one must not share its id with the same message ending
+// in the other.
+var c10TextPairs = [][2]string{
+	{"{lb}0{rb}", "0"}, {"{lb}NAME{rb}", "NAME"}, {"{lb}X_1{rb}", "X_1"}, {"{lb}{rb}", "()"}, {"{lb}a", "a{rb}"}, {"{lb}{lb}1{rb}{rb}", "{lb}1{rb}"},
+	{"a{sp}b", "ab"}, {"a{nil}b", "a b"}, {"x{sp}{sp}y", "x{sp}y"}, {"<b>", "{lb}b{rb}"}, {"START_BOLD", "{lb}START_BOLD{rb}"},
+}
 
 func (m msgSpec) vars() []string {
 	set := map[string]bool{}
@@ -380,6 +388,24 @@ func c10Exec(cs *c10Case, plan *simrt.MapPlan, u *wk.Unit) *wk.Failure {
 			pl := m.Body[0]
 			pl.Cases = append(append([]msgCase{}, pl.Cases...), msgCase{N: 7, Body: []msgPart{{T: "text", S: "seven"}}})
 			m.Body = []msgPart{pl}
+		case "text-pairs":
+			if len(m.Body) > 0 && m.Body[0].T == "plural" {
+				return nil
+			}
+			for _, pr := range c10TextPairs {
+				a, b := m, m
+				a.Body = append(append([]msgPart{}, m.Body...), msgPart{T: "text", S: pr[0]})
+				b.Body = append(append([]msgPart{}, m.Body...), msgPart{T: "text", S: pr[1]})
+				va, _ := observeMsgCase(bundleFor("app.m", "t", "m.soy", []msgSpec{a}), simrt.CanonicalPlan())
+				vb, _ := observeMsgCase(bundleFor("app.m", "t", "m.soy", []msgSpec{b}), simrt.CanonicalPlan())
+				if !va.Accept || !vb.Accept || len(va.Msgs) != 1 || len(vb.Msgs) != 1 {
+					return &wk.Failure{Class: "invalid-case", Detail: va.Err + vb.Err}
+				}
+				if va.Msgs[0].ID == vb.Msgs[0].ID {
+					return mk("id insensitive to text", fmt.Sprintf("two messages whose texts differ (one ends in %q, the other in %q) share the id %d (%q vs %q)", pr[0], pr[1], va.Msgs[0].ID, va.Msgs[0].PH, vb.Msgs[0].PH))
+				}
+			}
+			return nil
 		case "last-char", "meaning-last-char":
 			// two messages that differ in their very last byte only, at every length modulo 12 (the
 			// fingerprint consumes its input in 12-byte blocks)
@@ -616,7 +642,7 @@ func C10(c *wk.Ctx) {
 				u.Counters["check_context_nested"]++
 			}
 			// (e) sensitivity
-			for _, v := range []string{"text", "meaning", "placeholder", "plural-structure", "last-char", "meaning-last-char"} {
+			for _, v := range []string{"text", "meaning", "placeholder", "plural-structure", "last-char", "meaning-last-char", "text-pairs"} {
 				do(&c10Case{Msg: m, Check: "sensitivity", Variant: v}, nil)
 			}
 			if mi == 0 {
